@@ -64,14 +64,14 @@ def es_configs(tier, seed=0):
             yield dict(family='ES', tag=tag, power=5000, refused=(), battery_mode=0, firmware=fw)
 
 
-def make_rig(cfg, transport='udp', fill=None, T=1, R=0, ka=False, ctx=None):
+def make_rig(cfg, transport='udp', fill=None, T=1, R=0, ka=False, ctx=None, keep_world=False):
     fam = cfg['family']
     if fam == 'ES':
         dev = EsDevice(firmware=cfg.get('firmware', b'1414E'), serial=serial_for(cfg['tag']))
         if fill:
             for i in range(len(dev.runtime)):
                 dev.runtime[i] = fill(i) & 0xFF
-        return Rig('ES', dev, transport, T, R, ka, ctx)
+        return Rig('ES', dev, transport, T, R, ka, ctx, keep_world=keep_world)
     dev = ModbusDevice(unit=0xF7 if fam == 'ET' else 0x7F, **({'fill': fill} if fill else {}))
     dev.mbap_length = cfg.get('mbap_length', 'correct')
     if fam == 'ET':
@@ -83,4 +83,4 @@ def make_rig(cfg, transport='udp', fill=None, T=1, R=0, ka=False, ctx=None):
         dt_device_info(dev, serial=serial_for(cfg['tag']))
         for name in cfg['refused']:
             dev.refused += DT_OPTIONAL[name]
-    return Rig(fam, dev, transport, T, R, ka, ctx)
+    return Rig(fam, dev, transport, T, R, ka, ctx, keep_world=keep_world)
